@@ -5,6 +5,9 @@ package main
 
 import (
 	"fmt"
+
+	"github.com/MinterTeam/minter-go-node/coreV2/state"
+	"github.com/MinterTeam/minter-go-node/coreV2/transaction"
 	"math/big"
 	"sort"
 	"strings"
@@ -132,6 +135,8 @@ type HistResult struct {
 	Emissions []string
 	C01       []MonitorFailure
 	C02       []MonitorFailure
+	C06       []MonitorFailure
+	C06Agree  int
 	Exports   []*types.AppState // only when keepExports
 }
 
@@ -224,6 +229,7 @@ type genOpts struct {
 	Monitors    bool
 	KeepExports bool
 	TimeWalk    bool
+	CheckDeliver bool // run every transaction in check mode on the in-flight state right before delivering it (C06)
 }
 
 func genHistory(seed uint64, spec *GenesisSpec, g *genOpts) (*History, *HistResult, *World) {
@@ -276,7 +282,34 @@ func genHistory(seed uint64, spec *GenesisSpec, g *genOpts) (*History, *HistResu
 			opts.Dt = time.Duration(1+r.Intn(7200)) * time.Second
 		}
 		h.Blocks = append(h.Blocks, RecBlock{Txs: txs, Opts: opts})
+		if g.CheckDeliver {
+			var chkCode uint32
+			var chkOK bool
+			hh := uint64(n.Height + 1)
+			opts.PreTx = func(i int, raw []byte) {
+				chkOK = n.guard("CheckTx", func() {
+					cs := state.NewCheckState(n.App.VerifStateDeliver())
+					chkCode = transaction.NewExecutorV3(transaction.GetDataV3).RunTx(cs, raw, nil, hh, newSyncMap(), 0, false).Code
+				})
+			}
+			opts.PostTx = func(i int, raw []byte, tr TxResult) {
+				kind := "?"
+				if i < len(gens) {
+					kind = gens[i].Kind
+				}
+				if !chkOK {
+					res.Panics = append(res.Panics, "check-mode RunTx panicked: "+n.Panics[len(n.Panics)-1])
+					return
+				}
+				if (chkCode == 0) != (tr.Code == 0) {
+					res.C06 = append(res.C06, MonitorFailure{What: fmt.Sprintf("C06: %s transaction at height %d: check mode on the same state returned code %d, DeliverTx %d (%s) raw=%x", kind, hh, chkCode, tr.Code, tr.Log, raw), Key: "c06-check-deliver"})
+				} else {
+					res.C06Agree++
+				}
+			}
+		}
 		br := n.Block(txs, &opts)
+		opts.PreTx, opts.PostTx = nil, nil
 		res.Hashes = append(res.Hashes, br.Hash)
 		res.Results = append(res.Results, br.Txs)
 		res.Updates = append(res.Updates, fmtUpdates(br))
